@@ -184,6 +184,9 @@ pub enum Op {
     SendBurst(Sel),
     /// LoopSignal::wakeup(): the next wait returns at once, with no event
     Wakeup,
+    /// register_dispatcher() with the Dispatcher of a source that is registered already: the poller
+    /// rejects the duplicate fd, the call must fail and change nothing
+    RegisterAgain(Sel),
 }
 
 #[derive(Clone, Copy, Debug, PartialEq, Eq, Serialize, Deserialize, Hash)]
